@@ -196,7 +196,6 @@ theorem unknown_label_iff (P : List Stmt) (l : Name) : findLabel P l = none ↔ 
 
 theorem isLabel_iff (l : Name) (s : Stmt) : isLabel l s = true ↔ s = .label l := by
   cases s <;> simp [isLabel]
-  exact eq_comm
 
 /-- **findLabel_some_iff.** The lookup yields index `i` iff statement `i` is `label l` and no earlier statement is. -/
 theorem findLabel_some_iff (P : List Stmt) (l : Name) (i : Nat) :
@@ -286,7 +285,7 @@ theorem step_label (cfg : Config W) (fuel : Nat) (P : List Stmt) (locals base) (
     execM₀ cfg (fuel+1) P locals base pc st = execM₀ cfg fuel P locals base (pc+1) (tick st) := by
   rw [execM₀.eq_1, h]
   simp only [BudgetOk] at hb
-  simp [hb, tick]
+  simp [hb, tick] <;> rfl
 
 /-- **function_stmt_binds_global.** A function statement binds the *global* `name` to the function value — also when it
 is executed inside a function body (`locals` untouched) — and continues with the next statement. -/
@@ -298,7 +297,7 @@ theorem function_stmt_binds_global (cfg : Config W) (fuel : Nat) (P : List Stmt)
         { (tick st) with globals := (tick st).globals.set name (.fn (.script fid)) } := by
   rw [execM₀.eq_1, h]
   simp only [BudgetOk] at hb
-  simp [hb, tick]
+  simp [hb, tick] <;> rfl
 
 /-- **return_ends_only_current** (part 1: the list). `return` ends the run of the *current* list at once, with `null` … -/
 theorem step_return_none (cfg : Config W) (fuel : Nat) (P : List Stmt) (locals base) (pc : Nat) (st : State W)
@@ -306,7 +305,7 @@ theorem step_return_none (cfg : Config W) (fuel : Nat) (P : List Stmt) (locals b
     execM₀ cfg (fuel+1) P locals base pc st = .ret .null (tick st) := by
   rw [execM₀.eq_1, h]
   simp only [BudgetOk] at hb
-  simp [hb, tick]
+  simp [hb, tick] <;> rfl
 
 /-- … or with the value of its expression; the statements after it are not looked at -/
 theorem step_return_some (cfg : Config W) (fuel : Nat) (P : List Stmt) (locals base) (pc : Nat) (st : State W) (e : Expr)
@@ -318,7 +317,7 @@ theorem step_return_some (cfg : Config W) (fuel : Nat) (P : List Stmt) (locals b
       | .oof => .oof := by
   rw [execM₀.eq_1, h]
   simp only [BudgetOk] at hb
-  simp [hb, tick]
+  simp [hb, tick] <;> rfl
 
 /-- an unconditional jump continues after the first label of that name in the same list, or raises -/
 theorem jump_taken (cfg : Config W) (fuel : Nat) (P : List Stmt) (locals base) (pc : Nat) (st : State W) (l : Name)
@@ -329,7 +328,7 @@ theorem jump_taken (cfg : Config W) (fuel : Nat) (P : List Stmt) (locals base) (
       | none => .err (.unknownLabel l) (tick st) := by
   rw [execM₀.eq_1, h]
   simp only [BudgetOk] at hb
-  simp [hb, tick]
+  simp [hb, tick] <;> rfl
 
 /-- a conditional jump evaluates its condition once; truthy: as an unconditional jump; falsy: next statement -/
 theorem jumpif_step (cfg : Config W) (fuel : Nat) (P : List Stmt) (locals base) (pc : Nat) (st : State W) (l : Name)
@@ -346,7 +345,7 @@ theorem jumpif_step (cfg : Config W) (fuel : Nat) (P : List Stmt) (locals base) 
       | .oof => .oof := by
   rw [execM₀.eq_1, h]
   simp only [BudgetOk] at hb
-  simp [hb, tick]
+  simp [hb, tick] <;> rfl
 
 /-- a taken jump to a label that does not occur in the same list is the `Unknown jump label` runtime error -/
 theorem jump_unknown (cfg : Config W) (fuel : Nat) (P : List Stmt) (locals base) (pc : Nat) (st : State W) (l : Name)
@@ -361,21 +360,41 @@ theorem jump_known (cfg : Config W) (fuel : Nat) (A B : List Stmt) (locals base)
       execM₀ cfg fuel (A ++ .label l :: B) locals base (A.length + 1) (tick st) := by
   rw [jump_taken cfg fuel _ locals base pc st l h hb, first_label_wins A B l hA]
 
-/-- an expression statement: evaluate, assign to the local scope inside a function, to the globals otherwise -/
+/-- an expression statement without a name: evaluate for its effects, continue with the next statement -/
 theorem step_expr (cfg : Config W) (fuel : Nat) (P : List Stmt) (locals base) (pc : Nat) (st : State W)
-    (name : Option Name) (e : Expr) (h : P[pc]? = some (.expr name e)) (hb : BudgetOk cfg st) :
+    (e : Expr) (h : P[pc]? = some (.expr none e)) (hb : BudgetOk cfg st) :
     execM₀ cfg (fuel+1) P locals base pc st =
       match evalExpr cfg (callValue₀ cfg fuel) locals e (tick st) with
-      | .ok v st2 =>
-          match name, locals with
-          | none, _ => execM₀ cfg fuel P locals base (pc+1) st2
-          | some n, some l => execM₀ cfg fuel P (some (l.set n v)) base (pc+1) st2
-          | some n, none => execM₀ cfg fuel P none base (pc+1) { st2 with globals := st2.globals.set n v }
+      | .ok _ st2 => execM₀ cfg fuel P locals base (pc+1) st2
       | .err e st2 => .err e st2
       | .oof => .oof := by
   rw [execM₀.eq_1, h]
   simp only [BudgetOk] at hb
-  simp [hb, tick]
+  simp [hb, tick] <;> rfl
+
+/-- an assignment at top level (no local scope) writes the global -/
+theorem step_assign_global (cfg : Config W) (fuel : Nat) (P : List Stmt) (base) (pc : Nat) (st : State W)
+    (n : Name) (e : Expr) (h : P[pc]? = some (.expr (some n) e)) (hb : BudgetOk cfg st) :
+    execM₀ cfg (fuel+1) P none base pc st =
+      match evalExpr cfg (callValue₀ cfg fuel) none e (tick st) with
+      | .ok v st2 => execM₀ cfg fuel P none base (pc+1) { st2 with globals := st2.globals.set n v }
+      | .err e st2 => .err e st2
+      | .oof => .oof := by
+  rw [execM₀.eq_1, h]
+  simp only [BudgetOk] at hb
+  simp [hb, tick] <;> rfl
+
+/-- an assignment inside a function body writes the local scope; the globals are untouched by the assignment itself -/
+theorem step_assign_local (cfg : Config W) (fuel : Nat) (P : List Stmt) (l : Env) (base) (pc : Nat) (st : State W)
+    (n : Name) (e : Expr) (h : P[pc]? = some (.expr (some n) e)) (hb : BudgetOk cfg st) :
+    execM₀ cfg (fuel+1) P (some l) base pc st =
+      match evalExpr cfg (callValue₀ cfg fuel) (some l) e (tick st) with
+      | .ok v st2 => execM₀ cfg fuel P (some (l.set n v)) base (pc+1) st2
+      | .err e st2 => .err e st2
+      | .oof => .oof := by
+  rw [execM₀.eq_1, h]
+  simp only [BudgetOk] at hb
+  simp [hb, tick] <;> rfl
 
 /-! ## scopes: function bodies and their callers -/
 
@@ -392,6 +411,7 @@ theorem jumps_stay_in_scope (cfg : Config W) (fuel : Nat) (id : FnId) (fd : Func
       | .err e st' => .err e st'
       | .oof => .oof := by
   rw [callValue_eq, callValue₀.eq_2, h]
+  rfl
 
 /-- **return_ends_only_current** (part 2: the caller goes on). A `return v` inside a function body ends that body; the
 call expression evaluates to `v` (`Out.ok`, not a `Res.ret` of the caller) and the caller continues. -/
@@ -418,7 +438,7 @@ caller's list. -/
 theorem callee_independent_of_caller_list (cfg : Config W) (fuel : Nat) (P P' : List Stmt) (locals base base')
     (pc pc' : Nat) (st : State W) (e : Expr) (h : P[pc]? = some (.ret (some e))) (h' : P'[pc']? = some (.ret (some e))) :
     execM₀ cfg fuel P locals base pc st = execM₀ cfg fuel P' locals base' pc' st := by
-  rw [execM₀.eq_1, execM₀.eq_1 (x_1 := P'), h, h']
+  rw [execM₀.eq_1, execM₀.eq_1 cfg fuel P', h, h']
 
 /-- **exec_deterministic.** In Lean this is immediate — `execute` is a function of (config, fuel, model, base, state) and
 the model `P` is an immutable value, so running it again from an equal state gives an equal result.  The Python-side
@@ -426,88 +446,5 @@ content (the model dicts are not mutated; two runs with equal fresh globals agre
 theorem exec_deterministic (cfg : Config W) (fuel : Nat) (P : List Stmt) (base : Option String) (st st' : State W)
     (h : st = st') : execute cfg fuel P base st = execute cfg fuel P base st' := by rw [h]
 
-/-! ## non-vacuity: concrete programs on the concrete host of the driver -/
-
-section Examples
-open HostImpl
-
-/-- what a test observes of a run -/
-structure Obs where
-  kind : String
-  err : Option RtErr
-  val : Option Value
-  count : Nat
-  log : List String
-  globals : Env
-deriving DecidableEq, Repr
-
-def obs : Res World → Obs
-  | .done st => ⟨"done", none, none, st.count, st.world.log, st.globals⟩
-  | .ret v st => ⟨"ret", none, some v, st.count, st.world.log, st.globals⟩
-  | .err e st => ⟨"err", some e, none, st.count, st.world.log, st.globals⟩
-  | .oof => ⟨"oof", none, none, 0, [], []⟩
-
-def xcfg (funs : List (Nat × FuncDef)) (max : Nat := 0) : Config World :=
-  { host := host, funs := fun id => (funs.find? (·.1 == id)).map (·.2), maxStatements := max }
-
-def g0 : State World := { globals := [(.user "systemLog", .fn (.lib "systemLog"))], world := {}, count := 0 }
-
-def L1 : Name := .user "L1"
-def L2 : Name := .user "L2"
-def logS (s : String) : Stmt := .expr none (.function (.user "systemLog") [.string s])
-
-/-- duplicate labels: the first wins.  `jump L1; log a; L1:; log b; L1:; log c` logs b, c (not just c). -/
-example : (obs (execute (xcfg []) 20 [.jump L1 none, logS "a", .label L1, logS "b", .label L1, logS "c"] none g0)).log
-    = ["b", "c"] := by decide
-
-/-- … and the cached second jump goes to the same (first) label: a loop around two `L1` labels -/
-example : obs (execute (xcfg []) 40
-      [.expr (some (.user "x")) (.number 0), .label L1, logS "b", .label L1,
-       .expr (some (.user "x")) (.binary .add (.variable (.user "x")) (.number 1)),
-       .jump L1 (some (.binary .lt (.variable (.user "x")) (.number 3)))] none g0)
-    = ⟨"done", none, none, 15, ["b", "b", "b"], g0.globals ++ [(.user "x", .num 3)]⟩ := by decide
-
-/-- unknown label: the error, raised when (and only when) the jump is taken -/
-example : obs (execute (xcfg []) 20 [logS "a", .jump L2 none, .label L1] none g0)
-    = ⟨"err", some (.unknownLabel L2), none, 2, ["a"], g0.globals⟩ := by decide
-
-example : (obs (execute (xcfg []) 20 [.jump L2 (some (.variable (.user "false"))), .label L1, logS "a"] none g0)).log
-    = ["a"] := by decide
-
-def fBody : List Stmt := [.label L1, logS "in f", .ret (some (.number 7)), logS "dead"]
-def fDef : FuncDef := { name := .user "f", args := [], lastArgArray := false, body := fBody }
-
-/-- **label_in_function_not_visible**: a global jump to a label defined only inside a function body errs … -/
-example : obs (execute (xcfg [(0, fDef)]) 20 [.function 0 (.user "f") [] false false fBody, .jump L1 none] none g0)
-    = ⟨"err", some (.unknownLabel L1), none, 2, [], g0.globals ++ [(.user "f", .fn (.script 0))]⟩ := by decide
-
-/-- … and a jump inside the body cannot reach a label of the caller (the body has no `L2`) -/
-example : (obs (execute (xcfg [(0, { fDef with body := [.jump L2 none] })]) 20
-      [.function 0 (.user "f") [] false false [.jump L2 none], .label L2,
-       .expr none (.function (.user "f") [])] none g0)).err
-    = some (.unknownLabel L2) := by decide
-
-/-- return ends only the function: the caller logs the returned value and goes on -/
-example : obs (execute (xcfg [(0, fDef)]) 20
-      [.function 0 (.user "f") [] false false fBody,
-       .expr (some (.user "r")) (.function (.user "f") []), logS "after", .ret (some (.variable (.user "r"))), logS "dead"]
-      none g0)
-    = ⟨"ret", none, some (.num 7), 7, ["in f", "after"],
-       g0.globals ++ [(.user "f", .fn (.script 0)), (.user "r", .num 7)]⟩ := by decide
-
-/-- the hypotheses of the one-step lemmas are inhabited -/
-example : BudgetOk (xcfg [] 5) g0 := by decide
-example : ¬ BudgetOk (xcfg [] 5) { g0 with count := 5 } := by decide
-example : CacheValid [.jump L1 none, .label L2, .label L1, .label L1] [(L1, 2), (L2, 1)] := by
-  intro l i h
-  simp at h
-  rcases h with ⟨rfl, rfl⟩ | ⟨rfl, rfl⟩ <;> decide
-example : ¬ CacheValid [.label L1, .label L1] [(L1, 1)] := by
-  intro h
-  have := h L1 1 (by simp)
-  revert this
-  decide
-
-end Examples
 
 end C08
